@@ -273,6 +273,18 @@ def run(ctx):
                         ctx.count('rejected_rows')
                         if out.kind == 'value':
                             ctx.violation('decision-table', 'table', i, wit, mech=f"{kind}:accepted")
+                        elif out.kind == 'converr' and model.is_map(v) and rng.random() < 0.3:
+                            # what the error says about the table: 'missing' is exactly the absent required fields (a field with a default
+                            # OR a default factory is not required), 'extra' exactly the unknown keys (C07's tree oracle, on this row)
+                            from . import c07
+                            try:
+                                c07.check(ctx, ty, v, out.exc.tree)
+                                ctx.count('error_trees_checked')
+                            except c07.Skip:
+                                pass
+                            except c07.Mismatch as m:
+                                ctx.violation('decision-table', 'table', i, {**wit, 'rule': m.rule, 'why': m.why, 'tree': short(out.exc.tree, 300)},
+                                              mech=f"{kind}:error-tree:{m.rule}")
                 # duplicates judged on observed behaviour: any two keys that EACH bind field f on their own (whatever the naming
                 # model thinks of them - the Python name of a renamed field is such a key on this tree) name the same field
                 # together, and that is refused
